@@ -44,20 +44,30 @@ def snapshot_isolation(chk: Check, rule: str = 'PROV-snapshot-isolation') -> Non
     ms = prog.view(mem.methods['save_checkpoint'])
     stores = [n for n in ast.walk(ms.node) if isinstance(n, ast.Assign) and isinstance(n.targets[0], ast.Subscript)]
     ok = False
-    if len(stores) == 1 and isinstance(stores[0].value, ast.Call) and last_name(stores[0].value) == 'Bundle':
-        kws = {k.arg: norm(k.value) for k in stores[0].value.keywords}
+    from ..rules import Resolver
+    stored_v = Resolver(ms).expand(stores[0].value) if len(stores) == 1 else None
+    if len(stores) == 1 and isinstance(stored_v, ast.Call) and last_name(stored_v) == 'Bundle':
+        kws = {k.arg: norm(k.value) for k in stored_v.keywords}
         ok = kws.get('dereference') == 'True' or (isinstance(stores[0].value, ast.Call) and False)
     if not ok and len(stores) == 1:
-        v = stores[0].value
+        v = stored_v
         ok = isinstance(v, ast.Call) and norm(v.func) == 'copy.deepcopy'
     chk.ob(rule, ms, ok, 'what the in-memory persister stores is dereferenced (deep-copied) at save time: later progress of the live process does not show',
            node=stores[0] if stores else None, kind='save:dereferenced')
     bi = prog.func('persistence.Bundle.__init__')
     bf = chk.ctx.facts.analyse(bi)
+    from ..rules import conditional_values
     upd = [c for c in calls_in_func(bi, 'update')]
-    deref = [c for c in upd if isinstance(c.args[0], ast.Call) and norm(c.args[0].func) == 'copy.deepcopy']
-    ok = bool(deref) and all(('T', 'dereference') in bf.at(n) for c in deref for n in bf.cfg.nodes_containing(c)) and all(
-        ('F', 'dereference') in bf.at(n) for c in upd if c not in deref for n in bf.cfg.nodes_containing(c))
+    # (facts, value) for everything handed to update(): directly, or through a local assigned per branch
+    handed = []
+    for c in upd:
+        a0 = c.args[0] if c.args else None
+        if isinstance(a0, ast.Name):
+            handed += [(fs, v) for fs, v in conditional_values(bf, a0.id)]
+        elif a0 is not None:
+            handed += [(bf.at(n), a0) for n in bf.cfg.nodes_containing(c)]
+    is_copy = lambda v: isinstance(v, ast.Call) and norm(v.func) == 'copy.deepcopy'
+    ok = any(is_copy(v) for _, v in handed) and all((('T', 'dereference') in fs) if is_copy(v) else (('F', 'dereference') in fs) for fs, v in handed)
     chk.ob(rule, bi, ok, 'Bundle(dereference=True) deep-copies the saved state', kind='bundle-dereference')
     pst = prog.view(pic.methods['save_checkpoint'])
     cfg = cfg_of(pst)
@@ -157,6 +167,12 @@ def run(chk: Check) -> None:
             acts = [s for s in t.body if any(isinstance(x, ast.Delete) or (isinstance(x, ast.Call) and last_name(x) in ('remove', 'unlink', 'pop')) for x in ast.walk(s))]
             hs = [h for h in t.handlers if h.type is not None and norm(h.type) in ('KeyError', 'OSError', 'FileNotFoundError', '(KeyError,)')]
             ok = bool(acts) and bool(hs) and all(not any(isinstance(x, ast.Raise) for s in h.body for x in ast.walk(s)) for h in hs)
+        # the same thing spelled ``with contextlib.suppress(KeyError / OSError): <remove>``
+        for w in [x for x in ast.walk(df.node) if isinstance(x, ast.With)]:
+            sup = [i.context_expr for i in w.items if isinstance(i.context_expr, ast.Call) and last_name(i.context_expr) == 'suppress'
+                   and any(norm(a) in ('KeyError', 'OSError', 'FileNotFoundError') for a in i.context_expr.args)]
+            acts = [s for s in w.body if any(isinstance(x, ast.Delete) or (isinstance(x, ast.Call) and last_name(x) in ('remove', 'unlink', 'pop')) for x in ast.walk(s))]
+            ok = ok or (bool(sup) and bool(acts))
         chk.ob('PAIR-idempotent-delete', df, ok, f'{cls.name}.delete_checkpoint tolerates a checkpoint that does not exist', kind='missing-tolerated')
     md = prog.view(mem.methods['delete_process_checkpoints'])
     dels = [n for n in ast.walk(md.node) if isinstance(n, ast.Delete)]
